@@ -21,7 +21,10 @@ def check(spec):
     N = len(S.positions)
     f = spec.get('f', 1.0)
     try:
-        res, num = repl.do_replace(case, sp, rp, seed=spec.get('rng', 0), replace_fraction=f)
+        kw = {}
+        if spec.get('hints'):
+            kw = dict(zip(('axisp1_idx', 'axisp2_idx', 'opoint_idx'), spec['hints']))
+        res, num = repl.do_replace(case, sp, rp, seed=spec.get('rng', 0), replace_fraction=f, **kw)
     except Exception as e:
         return "replace_pattern_in_structure raised %r" % (e,)
     smap = repl.shared_map(sp0, rp0)
@@ -130,12 +133,12 @@ REPLAY = {'placement': replay}
 
 
 def run(rec, tier, seed):
-    rec.rule = ("[+ partial replacement f=0.5; + history independence: replace / replicate / cell assignment before the replacement behaves like a "
+    rec.rule = ("[+ partial replacement f=0.5; + axis / orientation hints naming non-default atoms; + history independence: replace / replicate / cell assignment before the replacement behaves like a "
                 "fresh equal structure] planted structures in 4 cells (incl. both tilt signs), copies straddling faces/edges/corners, pattern pairs with inserted atoms "
                 "(grow-shared, swap-element, disjoint, sym-grow, collinear-swap, single-swap); checks: every inserted atom inside the cell "
                 "(fractional in [0,1]), matched + inserted atoms form a proper rigid image of search + replacement coordinates modulo the "
                 "lattice (bound 4*atol), result invariant under a joint rigid motion of both patterns. distinct = specs")
-    pairs = ['grow-shared', 'swap-element', 'disjoint', 'sym-grow', 'collinear-swap', 'single-swap']
+    pairs = ['grow-shared', 'swap-element', 'disjoint', 'sym-grow', 'collinear-swap', 'single-swap', 'grow-planar']
     cells = list(geo.CELLS)
     nseed = 2 if tier == 'quick' else 6
     for pi, pair in enumerate(pairs):
@@ -148,6 +151,14 @@ def run(rec, tier, seed):
                     rec.fail('placement', 'placement', "%s on %r" % (msg, spec), spec, 'C05/placement')
                 # joint-motion invariance is only meaningful when the matched frame is determined: a collinear / symmetric search
                 # pattern with off-axis replacement atoms leaves the azimuth of the inserted atoms undetermined (DESIGN C05)
+                if s == 0 and pair in ('disjoint', 'swap-element', 'grow-planar'):
+                    # caller-supplied axis / orientation hints (every role given to an atom other than the default one)
+                    for hints in ((1, 0, 2), (2, 0, 1), (1, 2, 0)):
+                        sph = dict(spec, hints=list(hints), f=1.0)
+                        msg = check(sph)
+                        rec.case(repr(sorted(sph.items())), group='placement-hints')
+                        if msg:
+                            rec.fail('placement', 'placement', "%s on %r" % (msg, sph), sph, 'C05/placement')
                 if s == 0:
                     for hist in ('replicate', 'cell'):
                         sp3 = dict(cell=cell, pair=pair, copies=2, seed=seed * 100 + pi + ci, history=hist)
